@@ -88,7 +88,7 @@ def call_arg_forms(ctx, fn, callee_suffix, skip_self=True):
     return out
 
 
-def check_call_args(ctx, rep, rid, table):
+def check_call_args(ctx, rep, rid, table, skip_self=True):
     """table: {fn: {callee_suffix: [expected 'a, b' forms (set)]}}: every call must use an expected form, every expected
     form must be used"""
     for fn, per in table.items():
@@ -96,7 +96,7 @@ def check_call_args(ctx, rep, rid, table):
             rep.anchor_lost(rid, fn)
             continue
         for callee, expected in per.items():
-            got = call_arg_forms(ctx, fn, callee)
+            got = call_arg_forms(ctx, fn, callee, skip_self)
             matched = set()
             for ln, form, b in got:
                 m = _match(form, expected)
